@@ -298,3 +298,93 @@ class Walker:
                 if n not in names:
                     names.append(n)
         return names
+
+
+# ---------------------------------------------------------------- canonical local names
+class _Rename(ast.NodeTransformer):
+    def __init__(self, mapping):
+        self.mapping = mapping
+
+    def visit_Name(self, node):
+        if node.id in self.mapping:
+            return ast.copy_location(ast.Name(id=self.mapping[node.id], ctx=node.ctx), node)
+        return node
+
+    def visit_arg(self, node):
+        if node.arg in self.mapping:
+            node.arg = self.mapping[node.arg]
+        return node
+
+
+def canonicalize(fn: ast.FunctionDef, rule: Callable) -> ast.FunctionDef:
+    """Rename the locals of `fn` to canonical names chosen by what they are assigned from, so that the domain
+    hooks (which know the locals by name) do not depend on the names the source happens to use.
+    rule(kind, value_src, arity) -> tuple of canonical names | None, with kind in
+    "assign" (value_src = the right-hand side, already renamed), "for" (value_src = the iterable), "def" (the
+    nested function's position: value_src = its index among nested defs), "arg" (value_src = canonical def name)."""
+    import copy
+    fn = copy.deepcopy(fn)
+    mapping: dict[str, str] = {}
+    ndef = [0]
+
+    def add(names, canon):
+        if len(names) != len(canon):
+            raise Untranslatable("canonical names: arity")
+        for n, c in zip(names, canon):
+            if n == c and mapping.get(n, c) == c:
+                continue
+            if mapping.get(n, c) != c:
+                raise Untranslatable(f"local {n} is used for two different things ({mapping[n]}, {c})")
+            if c in mapping.values() and mapping.get(n) != c:
+                other = [k for k, v in mapping.items() if v == c]
+                if other != [n]:
+                    raise Untranslatable(f"two locals ({other[0]}, {n}) play the role of {c}")
+            mapping[n] = c
+
+    def targets_of(t):
+        if isinstance(t, ast.Name):
+            return [t.id]
+        if isinstance(t, ast.Tuple) and all(isinstance(x, ast.Name) for x in t.elts):
+            return [x.id for x in t.elts]
+        return None
+
+    def ren(e):
+        return ast.unparse(_Rename(mapping).visit(copy.deepcopy(e)))
+
+    def walk(stmts):
+        for s in stmts:
+            if isinstance(s, (ast.Assign, ast.AnnAssign)) and getattr(s, "value", None) is not None:
+                tg = s.targets[0] if isinstance(s, ast.Assign) else s.target
+                names = targets_of(tg)
+                if names is not None:
+                    canon = rule("assign", ren(s.value), len(names))
+                    if canon is not None:
+                        add(names, canon)
+            elif isinstance(s, ast.For):
+                names = targets_of(s.target)
+                if names is not None:
+                    canon = rule("for", ren(s.iter), len(names))
+                    if canon is not None:
+                        add(names, canon)
+                walk(s.body)
+            elif isinstance(s, ast.FunctionDef):
+                canon = rule("def", str(ndef[0]), 1)
+                ndef[0] += 1
+                if canon is not None:
+                    add([s.name], canon)
+                    argc = rule("arg", canon[0], len(s.args.args))
+                    if argc is not None:
+                        add([a.arg for a in s.args.args], argc)
+                walk(s.body)
+            elif isinstance(s, ast.If):
+                walk(s.body)
+                walk(s.orelse)
+            elif isinstance(s, ast.Try):
+                walk(s.body)
+                for h in s.handlers:
+                    walk(h.body)
+            elif isinstance(s, ast.With):
+                walk(s.body)
+    walk(fn.body)
+    # comprehension / generator variables keep their names (they are bound inside one expression)
+    return ast.fix_missing_locations(_Rename(mapping).visit(fn))
